@@ -10,14 +10,14 @@ import (
 
 func TestC17(t *testing.T) {
 	runLayoutProperty(t, "C17",
-		"rapid-generated input files with 0-3 converter interfaces (named Convergen, ':convergen' with spacing variants and surrounding doc lines) mixed with unmarked interfaces and look-alikes "+
+		"rapid-generated input files with 0-3 (now and then 11-14) converter interfaces (named Convergen, ':convergen' with spacing variants and surrounding doc lines) mixed with unmarked interfaces and look-alikes "+
 			"(':convergence', 'Convergen2', marker inside a block comment, marker in the middle of a sentence, marker on a struct, notation-looking lines on plain interfaces), same method name under different receivers, "+
 			"and sibling files of the package (tagged and untagged) that hold marked interfaces or the package's only Convergen. "+
 			"Oracle: exit 0 iff the input file itself holds a converter interface; generated functions = exactly the methods of those interfaces (each once, nothing else new); every other interface is carried over token-identically (Engine L differ); siblings byte-identical. "+
 			"Non-trivial: file mixing >= 2 interface kinds, or with a sibling holding a marked interface, or without converter; distinct by setup text and siblings.",
 		2000, 30000,
 		func(rt *rapid.T) layoutMeta {
-			f := pg.GenLayoutFile(rt, pg.LayoutProfile{MaxItems: 6, MaxConverters: 3, Comments: rapid.Bool().Draw(rt, "comments"), Unmarked: true, SameNames: true, NoConverter: true})
+			f := pg.GenLayoutFile(rt, pg.LayoutProfile{MaxItems: 6, MaxConverters: 3, Comments: rapid.Bool().Draw(rt, "comments"), Unmarked: true, SameNames: true, NoConverter: true, Many: true})
 			m := layoutMeta{Siblings: map[string]string{}}
 			if len(f.Converters()) == 0 {
 				m.NoConvert = true
